@@ -13,9 +13,12 @@ TIERS = {
     "C03": T(1500, 25000),
     "C04": T(2000, 30000),
     "C05": T(700, 12000),
+    "C09": T(900, 15000),
     "C13": T(1200, 12000),
     "C14": T(1500, 12000),
+    "C15": T(900, 15000),
     "C18": T(2500, 40000),
+    "C20": T(1000, 15000),
 }
 
 LEVEL = {
@@ -45,6 +48,13 @@ ASSUMPTIONS = {
             "the simulated interface either answers every request or stays completely silent"],
     "C14": ["acceptance is only asserted for layouts present in the documented example configurations; rejection only for "
             "the fault classes listed in the statement (e.g. a point and a signal sharing an accessory number is not asserted either way)"],
+    "C09": ["optimistic state is read immediately after the call, before the simulated bus' answers are processed",
+            "function bytes are compared only inside the active function group (bytes of inactive groups are don't-care in MSG_CS_DRIVE)",
+            "reserved function bits 5..7 and states other than 0/1 are expected to be rejected"],
+    "C15": ["the simulated bus answers every request; node-new / node-lost notices are injected as uplink messages of the reporting interface",
+            "children exist only below nodes whose class has the interface bit"],
+    "C20": ["the transcript is judged after all messages deferred by the response budget have left (answers processed)",
+            "enumeration, capacity query, occupancy queries and speed-0 / all-off drive messages are tolerated, but must target nodes of the tree"],
     "C01": ["every generated message is accepted for immediate transmission by construction (cumulative worst-case "
             "response budget per node <= 48 bytes); deferred messages are C03/C04",
             "the sequence byte is not compared here (C05)"],
